@@ -55,11 +55,18 @@ def monitor(case, obs):
         if ctx.get("reader"): continue
         if ev[0] == "api" and ev[1] == "force_quit": fq = True
         if ev[0] == "api" and ev[1] == "proc":
-            open_calls.append({"i": i, "cls": ev[2], "levels": ctx.get("levels"), "hit": False, "prios": set(), "nested": False, "depth_h": 0})
+            open_calls.append({"i": i, "cls": ev[2], "levels": ctx.get("levels"), "hit": False, "prios": set(), "nested": False, "depth_h": 0, "nested_loop": False})
             for c in open_calls[:-1]: c["nested"] = True
         elif ev[0] == "api" and ev[1] in ("new_loop", "push_modal", "get_user_input", "close_loop"):
-            for c in open_calls: c["nested"] = True
+            for c in open_calls: c["nested"] = True; c["nested_loop"] = True
         elif ev[0] == "H":
+            # it dispatches nothing more once the handler during which the awaited dispatch happened has finished: a new top-level dispatch of this call
+            # (another signal, at handler depth 0 of the call) after the awaited class was dispatched is a violation
+            if open_calls and case.get("mode") in ("c10", "loop"):
+                c = open_calls[-1]
+                if c["cls"] is not None and c["hit"] and c["depth_h"] == 0 and ev[2] != c.get("top_sid") and not c["nested_loop"]:
+                    return "process_signals(return_after=%s) dispatched signal %r after the handler during which a %s signal was dispatched had finished" % (c["cls"], ev[2], c["cls"])
+                if c["depth_h"] == 0: c["top_sid"] = ev[2]
             for c in open_calls:
                 if c["cls"] is not None and x.hcls.get(ev[1]) == c["cls"]: c["hit"] = True
             if open_calls:
